@@ -180,6 +180,32 @@ pub fn char_style_font_last<'a, C: TestColor>(font: &'a MonoFont<'a>, text_color
     b.font(font).build()
 }
 
+/// the same style derived from a fully loaded other style: `MonoTextStyleBuilder::from(&other)`, then every setting
+/// replaced or reset
+pub fn char_style_derived<'a, C: TestColor>(font: &'a MonoFont<'a>, text_color: bool, bg: bool, underline: u8, strike: u8) -> MonoTextStyle<'a, C> {
+    let loaded = MonoTextStyleBuilder::<C>::new().font(font).text_color(C::BG).background_color(C::TEXT).underline_with_color(C::STRIKE).strikethrough_with_color(C::UNDER).build();
+    let mut b = MonoTextStyleBuilder::from(&loaded).font(font);
+    b = if text_color { b.text_color(C::TEXT) } else { b.reset_text_color() };
+    b = if bg { b.background_color(C::BG) } else { b.reset_background_color() };
+    b = match underline {
+        1 => b.underline(),
+        2 => b.underline_with_color(C::UNDER),
+        _ => b.reset_underline(),
+    };
+    b = match strike {
+        1 => b.strikethrough(),
+        2 => b.strikethrough_with_color(C::STRIKE),
+        _ => b.reset_strikethrough(),
+    };
+    b.build()
+}
+
+/// the same style derived from itself (`From<&MonoTextStyle>` must keep every setting) with decorations set twice
+pub fn char_style_rebuilt<'a, C: TestColor>(font: &'a MonoFont<'a>, text_color: bool, bg: bool, underline: u8, strike: u8) -> MonoTextStyle<'a, C> {
+    let first = char_style::<C>(font, text_color, bg, underline, strike);
+    MonoTextStyleBuilder::from(&first).build()
+}
+
 impl TextCase {
     pub fn font(&self) -> &'static MonoFont<'static> {
         font_by_name(&self.font).expect("font name")
